@@ -398,6 +398,14 @@ func checkInjectorCalls(calls []call, sig outputSignature, pkgPath string) []err
 				errs = append(errs, fmt.Errorf("value %s can't be used: %v", ts, err))
 			}
 		}
+		if c.kind == structProvider && c.pkg != nil && c.pkg.Path() != pkgPath {
+			for _, f := range c.fieldNames {
+				if !ast.IsExported(f) {
+					ts := types.TypeString(c.out, nil)
+					errs = append(errs, fmt.Errorf("struct provider for %s can't be used: uses unexported field %s", ts, f))
+				}
+			}
+		}
 	}
 	return errs
 }
